@@ -461,7 +461,7 @@ var (
 // addService registers a new service with the specified lifetime and options.
 // It performs validation, creates descriptors, handles multi-return constructors,
 // and manages interface registrations when using the As option.
-func (r *collection) addService(service any, lifetime Lifetime, opts ...AddOption) error {
+func (r *collection) addService(service any, lifetime Lifetime, opts ...AddOption) (err error) {
 	// Validate inputs
 	if service == nil {
 		return &ValidationError{
@@ -499,6 +499,17 @@ func (r *collection) addService(service any, lifetime Lifetime, opts ...AddOptio
 
 	r.mu.Lock()
 	defer r.mu.Unlock()
+
+	// A constructor can yield several services (result objects, multiple
+	// returns, several As interfaces) that are registered one by one: if one
+	// of them is rejected, take back the ones already registered so that a
+	// failed call leaves the collection as it was.
+	mark := len(r.allDescriptors)
+	defer func() {
+		if err != nil {
+			r.rollback(mark)
+		}
+	}()
 
 	// Parse options to handle special registration cases
 	options := &addOptions{}
@@ -705,6 +716,22 @@ func (r *collection) registerDescriptor(descriptor *Descriptor) error {
 	r.allDescriptors = append(r.allDescriptors, descriptor)
 
 	return nil
+}
+
+// rollback unregisters every descriptor registered after position mark.
+func (r *collection) rollback(mark int) {
+	for i := len(r.allDescriptors) - 1; i >= mark; i-- {
+		descriptor := r.allDescriptors[i]
+		if descriptor.Group != "" {
+			groupKey := GroupKey{Type: descriptor.Type, Group: descriptor.Group}
+			if members := r.groups[groupKey]; len(members) > 0 && members[len(members)-1] == descriptor {
+				r.groups[groupKey] = members[:len(members)-1]
+			}
+		} else if key := (TypeKey{Type: descriptor.Type, Key: descriptor.Key}); r.services[key] == descriptor {
+			delete(r.services, key)
+		}
+	}
+	r.allDescriptors = r.allDescriptors[:mark]
 }
 
 // validateLifetimes ensures singleton and transient services don't depend on scoped services.
